@@ -141,3 +141,198 @@ def run(chk):
     r2_staged_greeting(chk)
     r3_ready_roles(chk)
     r4_peer_error_fatal(chk)
+
+
+# ---------------------------------------------------------------------------
+# R1: one compatibility relation
+# ---------------------------------------------------------------------------
+def _accepting_paths(body, constraint_of_switch, max_paths=20000):
+    """enumerate CFG paths from entry to blocks that assign `_0 = true`; returns list of dict idx->value of the
+    constraints picked up on true/variant edges"""
+    accept = set()
+    for b, i, st in body.statements():
+        if st["k"] == "assign" and st["p"]["l"] == 0 and not st["p"]["pr"] and st["r"]["k"] == "use" and st["r"]["o"].get("int") == 1:
+            accept.add(b)
+    out = []
+    stack = [(0, {}, frozenset())]
+    n = 0
+    while stack and n < max_paths:
+        b, cons, seen = stack.pop()
+        if b in seen:
+            continue
+        n += 1
+        if b in accept:
+            out.append(cons)
+            continue
+        t = body.term(b)
+        if t["k"] == "switch":
+            cs = constraint_of_switch(b)
+            for tb, lab in body.edges(b):
+                c2 = dict(cons)
+                if cs is not None:
+                    k, val = cs(lab)
+                    if k is not None:
+                        c2[k] = val
+                stack.append((tb, c2, seen | {b}))
+        else:
+            for tb, lab in body.edges(b):
+                stack.append((tb, cons, seen | {b}))
+    return out
+
+
+def string_pairs(body):
+    """pairs accepted by a closure of the shape matches!((x, y), ("A","B") | ...)"""
+    def cs(b):
+        t = body.term(b)
+        a, pol = body.cond_atom(t["d"])
+        if a[0] == "call" and a[1].callee.endswith("str::traits::eq") and len(a[1].args) == 2 and a[1].args[1]["c"] == "const":
+            lit = a[1].args[1].get("v", "").replace("const ", "").strip('"')
+            # which tuple field?
+            org = a[1].args[0]
+            idx = None
+            if org["c"] in ("copy", "move"):
+                for d in body.whole_defs(org["p"]["l"]):
+                    if d[0] == "assign" and d[3]["r"]["k"] == "ref":
+                        for e in d[3]["r"]["p"]["pr"]:
+                            if e[0] == "field":
+                                idx = e[1]
+            true_lab = body.bool_edge_label(b, True if pol else False)
+            return lambda lab: ((idx, lit) if lab == true_lab else (None, None))
+        return None
+    pairs = set()
+    for cons in _accepting_paths(body, cs):
+        if 0 in cons and 1 in cons:
+            pairs.add((cons[0], cons[1]))
+    return pairs
+
+
+def enum_pairs(prog, body, enum_path):
+    adt = prog.facts.adts.get(enum_path)
+    names = [v["name"] for v in adt["variants"]]
+
+    def cs(b):
+        t = body.term(b)
+        a, pol = body.cond_atom(t["d"])
+        if a[0] == "discr" and a[2] == enum_path:
+            idx = None
+            for e in a[3]["pr"]:
+                if e[0] == "field":
+                    idx = e[1]
+            return lambda lab: ((idx, names[lab].upper()) if isinstance(lab, int) and lab < len(names) else (None, None))
+        return None
+    pairs = set()
+    for cons in _accepting_paths_local(body, cs):
+        if 0 in cons and 1 in cons:
+            pairs.add((cons[0], cons[1]))
+    return pairs
+
+
+def _accepting_paths_local(body, constraint_of_switch):
+    """like _accepting_paths, but accepting blocks assign `true` to any bool local (match result), not only _0"""
+    accept = set()
+    for b, i, st in body.statements():
+        if st["k"] == "assign" and not st["p"]["pr"] and st["r"]["k"] == "use" and st["r"]["o"].get("int") == 1 and st["r"]["o"].get("ty") == "bool":
+            accept.add(b)
+    out = []
+    stack = [(0, {}, frozenset())]
+    n = 0
+    while stack and n < 20000:
+        b, cons, seen = stack.pop()
+        if b in seen:
+            continue
+        n += 1
+        if b in accept:
+            out.append(cons)
+            continue
+        t = body.term(b)
+        cs = constraint_of_switch(b) if t["k"] == "switch" else None
+        for tb, lab in body.edges(b):
+            c2 = cons
+            if cs is not None:
+                k, val = cs(lab)
+                if k is not None:
+                    c2 = dict(cons)
+                    c2[k] = val
+            stack.append((tb, c2, seen | {b}))
+    return out
+
+
+def r1_one_relation(chk):
+    r = chk.rule("R1", "one socket-type compatibility relation", "T9 table agreement",
+                 "the pairs accepted over ZMTP/3.x (READY Socket-Type), ZMTP/2.0 (greeting byte) and inproc are the same symmetric relation")
+    for cfg, prog in chk.configs():
+        shared = prog.body("protocol::zmtp::greeting::socket_types_compatible")
+        clos = prog.body("protocol::zmtp::greeting::socket_types_compatible::{closure#0}")
+        if shared is None or clos is None:
+            r.bad(cfg, "anchor|shared table", "-", "no shared compatibility function (greeting::socket_types_compatible) found: the three paths cannot be using one table")
+            continue
+        base = string_pairs(clos)
+        ncalls = len([c for c in shared.calls if c.callee.endswith("socket_types_compatible::{closure#0}")])
+        table = set(base) | ({(b, a) for a, b in base} if ncalls >= 2 else set())
+        if len(base) < 8:
+            r.bad(cfg, "shared table|extracted", where(clos, 0), "only %d pairs extracted from the shared table" % len(base))
+            continue
+        sym = all((b, a) in table for a, b in table)
+        (r.ok if sym else r.bad)(cfg, "shared table|symmetric", where(shared, 0), *([] if sym else ["the shared relation is not symmetric"]))
+        r.note("%s: shared table = %s" % (cfg, sorted(base)))
+        # v2 path delegates
+        v2 = prog.body("protocol::zmtp::engine::ZmtpEngine::validate_v2_compatibility")
+        ok = v2 is not None and any(c.callee == "protocol::zmtp::greeting::socket_types_compatible" for c in v2.calls)
+        (r.ok if ok else r.bad)(cfg, "ZMTP/2.0|uses the shared table", where(v2, 0) if v2 else "-", *([] if ok else ["validate_v2_compatibility does not consult the shared table"]))
+        # v3 path: every path to phase=Data in process_ready passes the check (or the peer sent no Socket-Type)
+        pr = prog.body("protocol::zmtp::engine::ZmtpEngine::process_ready")
+        key = "ZMTP/3.x|READY Socket-Type validated before Data"
+        if pr is None:
+            r.bad(cfg, key, "-", "process_ready not found")
+        else:
+            from rules.c06 import phase_assignments
+            datas = [b for b, i, v in phase_assignments(pr) if v == "Data"]
+            chk_calls = [c for c in pr.calls if c.callee == "protocol::zmtp::greeting::socket_types_compatible"]
+            avoid_edges = set()
+            for c in chk_calls:
+                # only the `true` edge of the check may continue
+                for s in range(pr.n):
+                    t = pr.term(s)
+                    if t["k"] == "switch":
+                        a, pol = pr.cond_atom(t["d"])
+                        if a[0] == "call" and a[1].blk == c.blk:
+                            avoid_edges.add((s, pr.bool_edge_label(s, True if pol else False)))
+            # None edge of the Option<&str> holding the peer type
+            none_edges = set()
+            for s in range(pr.n):
+                t = pr.term(s)
+                if t["k"] == "switch":
+                    a, _ = pr.cond_atom(t["d"])
+                    if a[0] == "discr" and a[2] == "std::option::Option<&str>":
+                        none_edges.add((s, 0))
+            reach = pr.reachable([0], avoid_edges=avoid_edges | none_edges)
+            if chk_calls and datas and not any(d in reach for d in datas):
+                r.ok(cfg, key, where(pr, chk_calls[0].blk), "phase=Data only after socket_types_compatible(..) == true (or no Socket-Type property)")
+            else:
+                r.bad(cfg, key, where(pr, datas[0] if datas else 0), "the READY handler reaches phase=Data without validating the peer's Socket-Type against the shared table: e.g. a PUB connecting to a PULL completes the handshake")
+        # inproc
+        ip = prog.body("transport::inproc::handshake::validate_socket_compatibility")
+        if ip is None:
+            r.note("%s: inproc transport not compiled" % cfg)
+        else:
+            ipairs = enum_pairs(prog, ip, "socket::types::SocketType")
+            extra = sorted(p for p in ipairs if p not in table)
+            local_types = set(x for p in ipairs for x in p) | {"DEALER", "ROUTER", "REQ", "REP", "PUSH", "PULL", "PUB", "SUB"}
+            missing = sorted(p for p in table if p not in ipairs and p[0] in local_types and p[1] in local_types)
+            if extra:
+                r.bad(cfg, "inproc|accepts only pairs of the shared table", where(ip, 0), "inproc accepts %s which ZMTP refuses" % extra)
+            else:
+                r.ok(cfg, "inproc|accepts only pairs of the shared table", where(ip, 0), "%d pairs" % len(ipairs))
+            if missing:
+                r.bad(cfg, "inproc|accepts every pair of the shared table", where(ip, 0), "inproc refuses %s, which are valid pairings over ZMTP/3.x and ZMTP/2.0: the verdict for a pair of socket types differs by transport" % missing)
+            else:
+                r.ok(cfg, "inproc|accepts every pair of the shared table", where(ip, 0))
+        r.require(cfg, 4, "compatibility obligations")
+
+
+def run(chk):  # noqa: F811
+    chk.undecided = ["convergence for all delivery schedules (model-checking question)", "agreement of the negotiated values at both ends"]
+    r1_one_relation(chk)
+    r2_staged_greeting(chk)
+    r3_ready_roles(chk)
+    r4_peer_error_fatal(chk)
